@@ -13,7 +13,7 @@
    and the IndexURL format are the ones goextract read from the source on this
    run (Generated.Regexes, Generated.IndexConsts). *)
 From Apko Require Import Base.Prelude Base.Regex Generated.Regexes Generated.IndexConsts
-  Model.Index Spec.IndexSpec Proofs.IndexProofs.
+  Model.Index Spec.IndexSpec Proofs.IndexProofs Model.IndexCache Proofs.IndexCacheProofs.
 Open Scope string_scope. Open Scope list_scope.
 
 (* With checking on, an accepted archive carries, in its first member, an entry
@@ -191,3 +191,52 @@ Example c04_optout_example :
   should_check false ["https://r/os"] "https://r/os/x86_64/APKINDEX.tar.gz" "x86_64" = false /\
   should_check false ["https://r/os/"] "https://r/os/x86_64/APKINDEX.tar.gz" "x86_64" = true.
 Proof. split; vm_compute; reflexivity. Qed.
+
+(* ---- the process-wide index cache (GetRepositoryIndexes, indexCache.get) ------
+   For EVERY history of calls in one process — any repositories, any per-call key
+   sets, ignore flags and exemption lists, any mix of cached and uncached
+   transports — the cache model with the key of fix C04-F3 (URL + verification
+   context) answers each call exactly as a cache-less evaluation of that call
+   would, and therefore every index a call gets back was authorised BY THAT CALL:
+   verification off, repository exempted, or signed by a key the call configured.
+   Nothing an earlier call accepted leaks into a later one. *)
+Theorem c04_cache_respects_context : forall signer loc arch cached cs,
+  let out := run_history signer loc arch cached vctx vctx_eqb (ctx_fixed loc arch) [] cs in
+  out = map (fresh_call signer loc arch) cs /\ HistoryHolds signer loc arch out.
+Proof. exact cache_fixed_sound. Qed.
+Print Assumptions c04_cache_respects_context.
+
+(* the same for ANY key discipline that separates verification contexts *)
+Theorem c04_cache_sound_for_separating_keys :
+  forall signer loc arch cached (K : Type) (K_eqb : K -> K -> bool) (ctx : repo_call -> nat -> K),
+  (forall a b, K_eqb a b = true -> a = b) ->
+  (forall c c' r, ctx c r = ctx c' r -> authorised_b signer loc arch c r = authorised_b signer loc arch c' r) ->
+  forall cs, HistoryHolds signer loc arch (run_history signer loc arch cached K K_eqb ctx [] cs).
+Proof. intros signer loc arch cached K K_eqb ctx H1 H2 cs. exact (proj2 (cache_sound signer loc arch cached K K_eqb ctx H1 H2 cs)). Qed.
+Print Assumptions c04_cache_sound_for_separating_keys.
+
+(* what the source says the key is made of, on this run: every site that stores
+   or looks up a parsed index uses a key that depends on verificationContext(...),
+   which consults shouldCheckSignatureForIndex and the contents of the keys *)
+Theorem c04_cache_key_shape :
+  forallb snd index_cache_key_sites = true /\ index_cache_key_sites <> [] /\ index_cache_ctx_reads = (true, true).
+Proof. split; [vm_compute; reflexivity|]. split; [discriminate | reflexivity]. Qed.
+Print Assumptions c04_cache_key_shape.
+
+(* with the URL-only key the code had before the fix the statement is false
+   (finding C04-F3, now `fixed:`): an index stored by an ignore-signatures call is
+   handed to a later call that trusts only another key *)
+Theorem c04_cache_url_only_refuted :
+  ~ HistoryHolds w_signer w_loc "x86_64"
+      (run_history w_signer w_loc "x86_64" (fun _ => true) unit (fun _ _ => true) ctx_url_only [] w_calls) /\
+  history_tags w_signer w_loc "x86_64"
+      (run_history w_signer w_loc "x86_64" (fun _ => true) unit (fun _ _ => true) ctx_url_only [] w_calls)
+    = ["viol:index-cache-ignores-verification-context"%string].
+Proof. exact cache_url_only_refuted. Qed.
+Print Assumptions c04_cache_url_only_refuted.
+
+(* the validator run on the implementation's observed histories decides the statement *)
+Theorem c04_history_validator_decides : forall signer loc arch calls,
+  history_tags signer loc arch calls = [] <-> HistoryHolds signer loc arch calls.
+Proof. exact history_validator_decides. Qed.
+Print Assumptions c04_history_validator_decides.
